@@ -29,7 +29,7 @@ def spec_join(rmc_class, vowel, kar):
     return []
 
 
-def join_region(prog, b, cls_fns):
+def join_region(prog, b, cls_fns, _from=None):
     """Locate the join: push_str(word, base) … push_str(word, suffix) on the same String local, and
     summarise every path between them as (conditions, effects)."""
     pushes = []
@@ -64,6 +64,8 @@ def join_region(prog, b, cls_fns):
         return None, "no push_str of the base before the suffix push on the same string"
     sbb = max(starts, key=lambda x: len([y for y in b.rblocks if b.dominates(y, x[0])]))[0]
     first = b.blocks[sbb]["term"]["target"]
+    if _from is not None:
+        first = _from
     # enumerate acyclic paths first .. ebb
     paths = []
 
@@ -89,6 +91,9 @@ def join_region(prog, b, cls_fns):
         effects = []
         env = {}
         feasible = True
+        reached_start = [_from is None]
+        if _from is not None and sbb not in [x_ for (x_, _) in p]:
+            continue
         for (x, vals) in p:
             if x == ebb:
                 break
@@ -104,9 +109,16 @@ def join_region(prog, b, cls_fns):
                         feasible = False
                         break
                     continue
+                if _from is not None and not reached_start[0] and classify_cond((d, vals, allv, t["discr_ty"]), cls_fns) is None:
+                    continue        # before the base is appended: a test that decides whether there is a join at all, not how it joins
                 conds.append((d, vals, allv, t["discr_ty"]))
             elif t["k"] == "call":
                 n = callee_name(t)
+                if _from is not None and x == sbb:
+                    reached_start[0] = True
+                    continue            # the base's own append opens the region
+                if _from is not None and not reached_start[0]:
+                    continue
                 if t["args"] and t["args"][0]["k"] != "const" and strip_refs(b.expr_operand(t["args"][0])) == edst:
                     if n.endswith("String::pop"):
                         effects.append(("pop",))
@@ -338,6 +350,41 @@ def run(ctx):
             r1.undecidable("join@%s" % short, "cannot locate/summarise the join: %s" % err, common.fn_line(prog, fk))
             continue
         table, err = join_table(region, cls)
+        if table is None:
+            # the kind of junction may be decided before the base is appended (`let joint = Joint::between(base, suffix)?; word.push_str(base);
+            # joint.apply(&mut word)`): read the paths from the head of the innermost loop around the join instead
+            try:
+                heads = b.loops()
+                inner = None
+                for h_, tails_ in heads.items():
+                    body_ = b.loop_body(h_, tails_)
+                    if region["start"] in body_ and (inner is None or len(body_) < inner[1]):
+                        inner = (h_, len(body_))
+                starts_ = [inner[0]] if inner is not None else []
+                # … or, outside any loop, from one of the nearest dominating blocks (where the junction is made)
+                d_ = region["start"]
+                for _ in range(14):
+                    d_ = b.idom.get(d_)
+                    if d_ is None:
+                        break
+                    if isinstance(d_, tuple):
+                        d_ = d_[1] if len(d_) > 1 and isinstance(d_[1], int) else None          # a split switch edge ('e', switch block, n)
+                        if d_ is None:
+                            break
+                    if isinstance(d_, int) and d_ not in starts_ and b.blocks[d_]["term"]["k"] == "switch":
+                        starts_.append(d_)
+                for st_ in starts_:
+                    try:
+                        region2, err2 = join_region(prog, b, cls, _from=st_)
+                    except PathLimit:
+                        continue
+                    if region2 is not None:
+                        table2, err2 = join_table(region2, cls)
+                        if table2 is not None:
+                            region, table, err = region2, table2, None
+                            break
+            except PathLimit:
+                pass
         if table is None:
             r1.undecidable("join@%s" % short, "cannot turn the join into a decision table: %s" % err, site_of(b, region["start"]))
             continue
